@@ -717,6 +717,15 @@ X9_STATE_FIELDS = {"source": "PyX9.source", "next_token": "PyX9.next_token"}
 # time into `PyX9.SM` (`<name>__io`: the message is the *state*, so the caller sees the change also when the call raises), and
 # `try: x = f(msg, …) except C: … else: …` around such a call becomes a `match` on `PyX9.runSM` — no Lean `try`, so no local is lost.
 SELECTED += [("parse_email", "packaging.metadata", "parse_email")]
+
+# --- x10: tenth round (the remaining probe wrappers: what they do with the probe's answer is library logic) ----------
+SELECTED += [
+    ("_glibc_version_string_confstr", "packaging._manylinux", "_glibc_version_string_confstr"),
+    ("default_environment", "packaging.markers", "default_environment"),
+]
+EXTERNAL_CALLS |= {"os.confstr", "platform.machine", "platform.release", "platform.version", "platform.python_version",
+                   "platform.python_implementation", "platform.python_version_tuple"}
+EXTERNAL_READS |= {"sys.implementation.version", "os.name", "sys.platform"}
 X9_MAIL_FUNCTIONS = {("packaging.metadata", "parse_email")}
 X9_SM = "PyX9.SM"
 # --- x9 end -----------------------------------------------------------------------------------------------------------
